@@ -9,7 +9,7 @@ def run(pid, tier, replay=None):
     ck = Check(pid, tier, "model_checking")
     sc = ck.scratch
     specdir = os.path.join(vlib.SPECS, "tree")
-    Ns = {"avl": 10, "rbt": 9} if tier == "quick" else {"avl": 12, "rbt": 11}
+    Ns = {"avl": 10, "rbt": 10} if tier == "quick" else {"avl": 12, "rbt": 11}
     if os.environ.get("VERIF_TREE_N"):
         Ns = {k: int(os.environ["VERIF_TREE_N"]) for k in Ns}
     ck.assumptions += ["iteration depends on the shape only (keys appear through their rank), so shapes are canonicalised by key rank",
